@@ -1,6 +1,6 @@
 # C03 (IPFIX) / C06 (NetFlow v9): records decoded exactly as their templates describe.
 # Structured stream from the Python encoder; oracle = RFC semantics over the abstract message.
-import struct, re
+import os, struct, re
 import vf
 from props.flowgen import Gen, Oracle, Tpl
 from props.flowprop import SEP, go_model, parse_dgram, subst_floats, header_of, go_drop_rule
@@ -24,7 +24,9 @@ class FlowFidelity:
         tpls = []
         used = set()
         for _ in range(ntpl):
-            t, opts = g.rand_tpl()
+            # (one template in eight names an element the model does not have - an IANA id nobody assigned, or an ENTERPRISE element whose
+            # id is a well-known IANA id: its data sets yield nothing and a non-fatal report, the neighbours decode)
+            t, opts = g.rand_tpl(allow_missing=(rng.random() < 0.125))
             while t.tid in used:
                 t.tid = rng.randint(256, 65535)
             used.add(t.tid)
@@ -127,6 +129,49 @@ class FlowFidelity:
         self.expect[line] = exp
         return line
 
+    def gen_custom(self, rng):
+        """a SITE's own ipfix.elements (the shipped file with some IANA elements given another abstract data type, plus a vendor
+        element) installed in the configuration directory: records are decoded as the templates describe under THAT model - the
+        file is the information model once it is loaded, for IANA elements as for any other"""
+        import re as _re
+        from props.flowgen import Tpl, TEST_EXT, U8, U16, U32, U64, OCTETS, MAC, IP4, STRING
+        text = open(os.path.join(vf.REPO, "scripts", "ipfix.elements")).read()
+        base = {k: v for k, v in go_model().items() if k not in TEST_EXT}
+        over = rng.sample([(89, "unsigned8", U8), (56, "octetArray", OCTETS), (8, "unsigned32", U32), (4, "unsigned16", U16), (7, "unsigned32", U32),
+                           (1, "unsigned32", U32), (12, "octetArray", OCTETS), (10, "unsigned64", U64), (82, "octetArray", OCTETS)], 4)
+        model = dict(base)
+        for eid, name, code in over:
+            text, n = _re.subn(r"(\n  %d:\n  - \S+\n  - )\S+" % eid, lambda m: m.group(1) + name, text, count=1)
+            if n != 1:
+                return None
+            model[(0, eid)] = (eid, code)
+        text += "9:\n  1001:\n  - siteCounter\n  - unsigned16\n"
+        model[(9, 1001)] = (1001, U16)
+        g = Gen(self.proto, model, rng)
+        orc = Oracle(self.proto, model)
+        addr = rand_addr(rng)
+        fields = [(eid, 0, {U8: 1, U16: 2, U32: 4, U64: 8, OCTETS: 6}.get(code, 4)) for eid, _, code in over] + [(2, 0, 8)]
+        if self.proto == "ipfix":
+            fields.append((1001, 9, 2))
+        t = Tpl(256, [], fields)
+        t2, o2 = self.big_tpl(g, rng, 257)
+        hist = [([g.enc_set(g.tpl_set_id(False), g.enc_tpl(t, False)), g.enc_set(g.tpl_set_id(o2), g.enc_tpl(t2, o2))], [("tpl", [(t, False)]), ("tpl", [(t2, o2)])])]
+        sets, abstract = [], []
+        for tt in (t, t2, t):
+            s_, ab = self.data_of(g, rng, tt)
+            sets.append(s_); abstract.append(ab)
+        hist.append((sets, abstract))
+        toks, exp = [], []
+        for sets, abstract in hist:
+            p = g.enc_msg(sets)
+            toks += [hx(addr), hx(p)]
+            recs, nf = orc.expected_sets(addr, abstract)
+            exp.append({"recs": recs, "nf": nf, "header": header_of(self.proto, p), "go_rule": recs})
+        line = "imcustom %s %s %s" % (self.proto, hx(text.encode()), " ".join(toks))
+        self.expect[line] = exp
+        self.custom_model_lines = getattr(self, "custom_model_lines", set()) | {line}
+        return line
+
     def big_tpl(self, g, rng, tid, opts=None):
         while True:
             t, o = g.rand_tpl(tid=tid, opts=opts, allow_var=(rng.random() < 0.3))
@@ -188,8 +233,10 @@ class FlowFidelity:
 
     def cases(self, tier, rng, budget):
         g = Gen(self.proto, go_model(), rng)
-        return [self.gen_typeinfo(g, rng) if (self.proto == "ipfix" and i % 40 == 7) else self.gen_sandwich(g, rng) if i % 6 == 5 else self.gen_case(g, rng)
-                for i in range(budget)]
+        out = [self.gen_typeinfo(g, rng) if (self.proto == "ipfix" and i % 40 == 7) else self.gen_sandwich(g, rng) if i % 6 == 5 else self.gen_case(g, rng)
+               for i in range(budget)]
+        out += [l for l in (self.gen_custom(rng) for _ in range(4 if tier == "quick" else 60)) if l]
+        return out
 
     def post(self, lines, impl, model):
         return impl, subst_floats(model)
@@ -228,6 +275,8 @@ class FlowFidelity:
                     return ("datagram %d: the published message does not carry the decoded records under their template's field ids: %d records decoded, %d published; "
                             "record %d decoded with ids %s, published with ids %s" % (k, len(dec), len(pub), j, dec[j] if j < len(dec) else None, pub[j] if j < len(pub) else None))
         strip = lambda o: SEP.join(re.sub(r" J:\S+$", "", x) for x in o.split(SEP))   # the JSON text is C05's business
+        if line in getattr(self, "custom_model_lines", ()):
+            return None      # (the executable model has no site file; the oracle built from the file has decided above)
         if strip(impl) != strip(model):
             return "model/implementation disagreement: impl %r model %r" % (strip(impl)[:400], strip(model)[:400])
         return None
